@@ -88,6 +88,23 @@ func (vc *VC) entry() {
 		}
 		_ = i
 	}
+	// typed pointers of identical element type are equal or do not overlap (no partially overlapping views)
+	for i, p := range fn.Params {
+		for j := i + 1; j < len(fn.Params); j++ {
+			q := fn.Params[j]
+			a, b := vc.vals[p], vc.vals[q]
+			if a.K != KPtr || b.K != KPtr || isUnsafePtr(p.Type()) || !types.Identical(p.Type(), q.Type()) {
+				continue
+			}
+			n := layoutOf(p.Type().Underlying().(*types.Pointer).Elem()).N
+			if n <= 1 {
+				continue
+			}
+			vc.assume(sOr(sNot(sEq(a.C[0], b.C[0])), sEq(a.C[1], b.C[1]),
+				app("bvule", bvBin("bvadd", a.C[1], off64(n)), b.C[1]),
+				app("bvule", bvBin("bvadd", b.C[1], off64(n)), a.C[1])))
+		}
+	}
 	for _, fv := range fn.FreeVars {
 		v := vc.symVal("fv_"+sanitize(fv.Name()), fv.Type(), h)
 		vc.vals[fv] = v
